@@ -192,7 +192,9 @@ class BlockDiagLinearOperator(BlockLinearOperator, metaclass=_MetaBlockDiagLinea
         # special case if we have a DiagLinearOperator
         if isinstance(other, DiagLinearOperator):
             # matmul is going to be cheap because of the special casing in DiagLinearOperator
-            diag_reshape = other._diag.view(*self.base_linear_op.shape[:-1])
+            batch_shape = torch.broadcast_shapes(self.batch_shape, other.batch_shape)
+            diag_reshape = other._diag.expand(*batch_shape, other._diag.shape[-1])
+            diag_reshape = diag_reshape.reshape(*batch_shape, *self.base_linear_op.shape[-3:-1])
             diag = DiagLinearOperator(diag_reshape)
             return BlockDiagLinearOperator(self.base_linear_op @ diag)
         return super().matmul(other)
